@@ -133,4 +133,10 @@ def intervalStepOptions (P : AsmParams) (g : Genotype) (lo hi : Nat) (stepType :
     `min 1 (ratio^(Ti − Tj))` -/
 def exchangeRatio (P : AsmParams) (gi gj : Genotype) : Rat := asmW P gj / asmW P gi
 
+/-- `chain_swap_step` as a state transition on the pair (cooler chain `i`, warmer chain `j`): on acceptance the
+    two genotypes AND the likelihoods carried with them are exchanged, otherwise nothing changes -/
+def exchangeStep (gi gj : Genotype) (li lj : Rat) (accept : Bool) :
+    (Genotype × Rat) × (Genotype × Rat) :=
+  if accept then ((gj, lj), (gi, li)) else ((gi, li), (gj, lj))
+
 end MCHap
